@@ -166,6 +166,24 @@ def proj_scico(spec):
     raise common.Infra(f"unknown projection {kind}")
 
 
+def proj_args(spec):
+    return {"ball": lambda: (spec["r"],), "point": lambda: (spec["c"],), "box": lambda: (spec["lo"], spec["hi"])}[spec["kind"]]()
+
+
+def proj_scico_args(kind):
+    """the same projections with their parameters as extra positional arguments"""
+    import scico.numpy as snp
+    from scico.numpy.linalg import norm
+
+    if kind == "ball":
+        return lambda x, r: x * (r / snp.maximum(norm(x), r))
+    if kind == "point":
+        return lambda x, c: 0 * x + c
+    if kind == "box":
+        return lambda x, lo, hi: snp.clip(x, lo, hi)
+    raise common.Infra(f"no args form for projection {kind}")
+
+
 # ---------------------------------------------------------------------------------------------
 # implementation side
 
@@ -197,10 +215,13 @@ def make_functional(fam, P):
         return F.NonNegativeIndicator()
     if fam == "l2ball":
         return F.L2BallIndicator(radius=float(P["radius"]))
-    if fam == "setdist":
-        return F.SetDistance(proj_scico(P["proj"]))
-    if fam == "sqsetdist":
-        return F.SquaredSetDistance(proj_scico(P["proj"]))
+    if fam in ("setdist", "sqsetdist"):
+        C = F.SetDistance if fam == "setdist" else F.SquaredSetDistance
+        spec = P["proj"]
+        if spec.get("via_args") and spec["kind"] in ("ball", "point", "box"):
+            # the parameters of the set travel through the `args` tuple of the constructor (`proj(*((v,) + self.args))`)
+            return C(proj_scico_args(spec["kind"]), args=proj_args(spec))
+        return C(proj_scico(spec))
     if fam == "zero":
         return F.ZeroFunctional()
     raise common.Infra(f"unknown family {fam}")
